@@ -111,6 +111,29 @@ def summary(ctx, ta, q, where, det, per_tree=True):
     out = {}
     try:
         n = out["n"] = len(ta)
+        # FIRST query of every summary, before anything recalculates the frequencies: a target tree summarised directly
+        # against the collection (the SumTrees target-tree route).  A star tree over the namespace carries every trivial
+        # split, so its per-leaf length / age summaries are a function of the sample alone (seeded change C06d: summary
+        # tables kept stale by a shared freshness stamp after further trees had been added one at a time).
+        out["target"] = {}
+        if n and q.get("full_leaf_sets", True) and len(ta.taxon_namespace) >= 3:
+            import dendropy
+            star = dendropy.Tree(taxon_namespace=ta.taxon_namespace)
+            for t in ta.taxon_namespace:
+                star.seed_node.new_child(taxon=t)
+            star.is_rooted = bool(ta.is_rooted_trees)
+            ta.summarize_splits_on_tree(star)
+            ctx.ev("target-tree-summarised-directly")
+            for nd in star.seed_node._child_nodes:
+                vals = {}
+                for holder in (nd, nd.edge):
+                    for k, v in vars(holder).items():
+                        if (k.startswith("length_") or k.startswith("age_")) and isinstance(v, (int, float)) and not isinstance(v, bool):
+                            vals[k] = float(v)
+                a = nd.annotations.get_value("support", None)
+                if a is not None:
+                    vals["support"] = float(a)
+                out["target"][nd.taxon.label] = vals
         out["counts"] = dict(sd.split_counts)
         out["freqs"] = dict((s, sd[s]) for s in sd.split_counts)
         out["lengths"] = dict((s, sorted(v)) for s, v in sd.split_edge_lengths.items() if s in sd.split_counts and v)
@@ -187,6 +210,15 @@ def compare(ctx, a, b, where, det, seq=None, bpos=None, spec_tops=None, suffix="
                 return diff("split-" + k, "multiset of %s of split %s differs: %r vs %r" % (k, bin(s), a[k][s][:8], b[k][s][:8]), sfx)
     if a["n"] == 0 or light:
         return True
+    ta_, tb_ = a.get("target") or {}, b.get("target") or {}
+    if ta_ and tb_:
+        for lab in ta_:
+            va, vb = ta_[lab], tb_.get(lab, {})
+            if set(va) != set(vb) or any(not close(va[k], vb[k]) for k in va):
+                bad = sorted(k for k in set(va) | set(vb) if k not in va or k not in vb or not close(va[k], vb[k]))
+                return diff("target-tree-summaries|%s" % (bad[0].split("_")[0] if bad else "?"),
+                            "a target tree summarised directly against the collection gets other values on the edge of %s: %s" %
+                            (lab, [(k, va.get(k), vb.get(k)) for k in bad[:3]]))
     if a["consensus"] != b["consensus"]:
         return diff("consensus-topology", "consensus trees differ")
     if a["consensus_rooting"] != b["consensus_rooting"]:
